@@ -204,3 +204,12 @@ func ScalarNearR(d int64) []byte {
 	new(big.Int).Add(R, big.NewInt(d)).FillBytes(out)
 	return out
 }
+
+// ScalarNeg returns r - s (32 bytes, big endian).
+func ScalarNeg(sc []byte) []byte {
+	x := new(big.Int).SetBytes(sc)
+	x.Sub(R, x).Mod(x, R)
+	out := make([]byte, 32)
+	x.FillBytes(out)
+	return out
+}
